@@ -98,3 +98,323 @@ Proof.
       cbn [map]. rewrite join_cons. apply pl_app; [exact P1|]. change (RDot :: ts2) with ([RDot] ++ ts2). apply pl_app; [apply pl_dot|exact P2].
 Qed.
 End Roots.
+
+(* ---------- shape of the token list: dots only between non-empty fragments ---------- *)
+Definition notdot (t : stok) : bool := match t with RDot => false | _ => true end.
+Definition chk (ts : list stok) : bool := last_ok ts && no_double_dot ts && Reader.first_ok ts.
+
+Lemma atoks_nodot m : forall fuel c log ts log', atoks fuel m c log = Ok (ts, log') -> forallb notdot ts = true /\ ts <> [].
+Proof.
+  induction fuel as [|f IH]; intros c log ts log' E; [discriminate|]. cbn [atoks] in E.
+  destruct (nth_error (atoms m) c) as [[[a cap] at_]|]; [|discriminate].
+  destruct (nth_error (adj m) c) as [bonds|]; [|discriminate].
+  match type of E with (do _ <- ?GA bonds log; _) = _ =>
+    assert (G : forall l lg out lg', GA l lg = Ok (out, lg') -> forallb notdot out = true) end.
+  { induction l as [|e rest IHl]; intros lg out lg' Eg; [inversion Eg; reflexivity|].
+    assert (Hbt : forallb notdot (btoks (b_order e) (b_stereo e)) = true).
+    { unfold btoks. destruct (b_order e =? 1); [destruct (b_stereo e) as [c0|]; [destruct (is_stereo_char c0)|]; reflexivity|].
+      destruct (b_order e =? 2); [reflexivity|]. destruct (b_order e =? 3); reflexivity. }
+    destruct (b_ring e).
+    - destruct (ring_label lg (b_src e) (b_dst e)) as [log2 n].
+      match type of Eg with (do _ <- ?X; _) = _ => destruct X as [[out0 log3]|] eqn:Er end; cbn [bind] in Eg; [|discriminate].
+      inversion Eg; subst. rewrite forallb_app, Hbt. cbn. exact (IHl _ _ _ Er).
+    - destruct (atoks f m (b_dst e) lg) as [[sub log2]|] eqn:Es; cbn [bind] in Eg; [|discriminate].
+      match type of Eg with (do _ <- ?X; _) = _ => destruct X as [[out0 log3]|] eqn:Er end; cbn [bind] in Eg; [|discriminate].
+      destruct (IH _ _ _ _ Es) as [Hs _]. pose proof (IHl _ _ _ Er) as Ho.
+      destruct rest; inversion Eg; subst; cbn [forallb notdot]; rewrite ?forallb_app, ?Hbt, ?Hs; cbn [forallb notdot andb]; rewrite ?Ho; reflexivity. }
+  match type of E with (do _ <- ?X; _) = _ => destruct X as [[out log2]|] eqn:Eg end; cbn [bind] in E; [|discriminate].
+  inversion E; subst. split; [cbn; exact (G _ _ _ _ Eg)|discriminate].
+Qed.
+
+Lemma chk_single ts : forallb notdot ts = true -> ts <> [] -> chk ts = true.
+Proof.
+  intros H Hne. unfold chk. assert (A : no_double_dot ts = true).
+  { clear Hne. induction ts as [|t r IH]; [reflexivity|]. cbn in H. apply andb_true_iff in H as [Ht Hr].
+    cbn [no_double_dot]. destruct t; try (now apply IH); discriminate. }
+  assert (B : Reader.first_ok ts = true) by (destruct ts as [|t r]; [contradiction|]; cbn in H; destruct t; try reflexivity; discriminate).
+  assert (C : last_ok ts = true).
+  { unfold last_ok. destruct (rev ts) as [|t r] eqn:Er; [reflexivity|].
+    assert (In t ts) by (apply in_rev; rewrite Er; now left). rewrite forallb_forall in H. specialize (H t H0). destruct t; try reflexivity; discriminate. }
+  now rewrite A, B, C.
+Qed.
+
+Lemma chk_app t1 t2 : forallb notdot t1 = true -> t1 <> [] -> t2 <> [] -> chk t2 = true -> chk (t1 ++ RDot :: t2) = true.
+Proof.
+  intros H1 Hn1 Hn2 H2. unfold chk in *. apply andb_true_iff in H2 as [H2 F2]. apply andb_true_iff in H2 as [L2 D2].
+  assert (A : no_double_dot (t1 ++ RDot :: t2) = true).
+  { clear Hn1. induction t1 as [|t r IH].
+    - cbn [app no_double_dot]. destruct t2 as [|u r2]; [contradiction|]. destruct u; try exact D2. discriminate F2.
+    - cbn in H1. apply andb_true_iff in H1 as [Ht Hr]. cbn [app no_double_dot]. destruct t; try (now apply IH); discriminate. }
+  assert (B : Reader.first_ok (t1 ++ RDot :: t2) = true) by (destruct t1 as [|t r]; [contradiction|]; cbn in H1; destruct t; try reflexivity; discriminate).
+  assert (C : last_ok (t1 ++ RDot :: t2) = true).
+  { unfold last_ok in *. rewrite rev_app_distr. cbn [rev]. rewrite <- app_assoc.
+    destruct (rev t2) as [|u r] eqn:Er; [apply (f_equal (@rev _)) in Er; rewrite rev_involutive in Er; cbn in Er; contradiction|].
+    cbn [app]. exact L2. }
+  now rewrite A, B, C.
+Qed.
+
+Lemma rtoks_chk m : forall rs log ts lf, rtoks m rs log = Ok (ts, lf) -> chk ts = true /\ (rs <> [] -> ts <> []).
+Proof.
+  induction rs as [|r rest IH]; intros log ts lf E; cbn [rtoks] in E.
+  - inversion E; subst. split; [reflexivity|intro H; contradiction].
+  - destruct (atoks _ m r log) as [[ts1 log2]|] eqn:Ea; cbn [bind] in E; [|discriminate].
+    destruct (rtoks m rest log2) as [[ts2 log3]|] eqn:Er; cbn [bind] in E; [|discriminate]. inversion E; subst; clear E.
+    destruct (atoks_nodot m _ _ _ _ _ Ea) as [Hd Hn]. destruct (IH _ _ _ Er) as [Hc Hne].
+    destruct rest as [|r2 rest2].
+    + split; [now apply chk_single|intros _; exact Hn].
+    + split; [apply chk_app; auto; apply Hne; discriminate|intros _; destruct ts1; [contradiction|discriminate]].
+Qed.
+
+(* ---------- sums ---------- *)
+Lemma bond_sum2_acc row : forall acc, fold_left (fun a s => a + sl_order2 s) row acc = acc + fold_left (fun a s => a + sl_order2 s) row 0.
+Proof.
+  induction row as [|s r IH]; intro acc; cbn [fold_left]; [lia|]. rewrite (IH (acc + sl_order2 s)), (IH (0 + sl_order2 s)). lia.
+Qed.
+Lemma bond_sum2_app a b : bond_sum2 (a ++ b) = bond_sum2 a + bond_sum2 b.
+Proof. unfold bond_sum2. rewrite fold_left_app. apply bond_sum2_acc. Qed.
+Lemma bond_sum2_slots (f : dbond -> nat) (g : dbond -> bool) l : bond_sum2 (map (fun e => mkslot (f e) e (g e)) l) = 2 * osum l.
+Proof.
+  induction l as [|e l IH]; [reflexivity|]. change (map _ (e :: l)) with ([mkslot (f e) e (g e)] ++ map (fun e => mkslot (f e) e (g e)) l).
+  rewrite bond_sum2_app, IH. unfold osum. cbn [zsum]. unfold bond_sum2. cbn [fold_left mkslot sl_order2]. lia.
+Qed.
+
+Section Valid.
+Variable T : table.
+Variable m : dmol.
+Hypothesis HG : MolWF (fun a c => CapOf T a c /\ AtomShape a) SumInv m.
+Hypothesis HT : TreeInv m.
+
+Let Hb : forall i e, In e (row m i) -> (b_dst e < natoms m)%nat /\ 1 <= b_order e <= 3 /\ (b_ring e = false -> (i < b_dst e)%nat).
+Proof. intros i e He. destruct (wf_bonds _ _ _ HG i e He) as (A & B & C & _). auto. Qed.
+Let Hnd : forall i, NoDup (map b_dst (row m i)) := si_nodup _ (wf_extra _ _ _ HG).
+Let Hsym := si_sym _ (wf_extra _ _ _ HG).
+Let Hadj : length (adj m) = natoms m := wf_adj _ _ _ HG.
+
+Lemma zsum_find x l : NoDup (map b_dst l) ->
+  zsum (inw x) l = match find (is_par x) l with Some e => b_order e | None => 0 end.
+Proof.
+  induction l as [|e l IH]; intro Hn; [reflexivity|]. cbn [map] in Hn. inversion Hn as [|? ? He Hn']; subst.
+  cbn [zsum find]. unfold inw at 1. unfold is_par at 1. destruct (negb (b_ring e) && Nat.eqb (b_dst e) x) eqn:E.
+  - rewrite zsum_zero; [lia|]. intros y Hy. unfold inw. destruct (negb (b_ring y) && Nat.eqb (b_dst y) x) eqn:Ey; [|reflexivity].
+    exfalso. apply andb_true_iff in E as [_ E]. apply andb_true_iff in Ey as [_ Ey]. apply Nat.eqb_eq in E, Ey.
+    apply He. rewrite E, <- Ey. now apply in_map.
+  - rewrite IH by exact Hn'. lia.
+Qed.
+
+Lemma adj_rows : adj m = map (row m) (seq 0 (length (adj m))).
+Proof.
+  apply nth_ext with (d := []) (d' := row m (length (adj m))); [now rewrite map_length, seq_length|].
+  intros n Hn. rewrite map_nth. rewrite seq_nth by exact Hn. reflexivity.
+Qed.
+
+Lemma zsum_map {A B} (f : B -> Z) (g : A -> B) l : zsum f (map g l) = zsum (fun a => f (g a)) l.
+Proof. induction l as [|a l IH]; cbn [map zsum]; [reflexivity|]. now rewrite IH. Qed.
+
+Lemma isum_par x : isum (adj m) x = match par m x with Some (_, e) => b_order e | None => 0 end.
+Proof.
+  unfold isum. rewrite adj_rows, zsum_map, Hadj. unfold par.
+  assert (G : forall ps, NoDup ps -> zsum (fun p => zsum (inw x) (row m p)) ps = match par_in m ps x with Some (_, e) => b_order e | None => 0 end).
+  { induction ps as [|p r IH]; intro Hn; [reflexivity|]. inversion Hn as [|? ? Hp Hn']; subst. cbn [zsum par_in].
+    rewrite (zsum_find x (row m p) (Hnd p)). destruct (find (is_par x) (row m p)) as [e|] eqn:Ef.
+    - rewrite zsum_zero; [lia|]. intros q Hq. rewrite (zsum_find x (row m q) (Hnd q)).
+      destruct (find (is_par x) (row m q)) as [e2|] eqn:Ef2; [|reflexivity]. exfalso.
+      apply find_some in Ef as [A1 A2]. apply find_some in Ef2 as [B1 B2]. unfold is_par in A2, B2.
+      apply andb_true_iff in A2 as [A2 A3]. apply andb_true_iff in B2 as [B2 B3]. apply negb_true_iff in A2, B2. apply Nat.eqb_eq in A3, B3.
+      assert (p = q) by (apply (t_par _ HT p q x); [exists e; auto|exists e2; auto]). subst q. contradiction.
+    - rewrite IH by exact Hn'. lia. }
+  apply G. apply seq_NoDup.
+Qed.
+
+(* the capacity the reader looks up is the one the decoder looked up *)
+Lemma cap_key_eq a : cap_key (abs_atom a) = constraint_key (a_element a) (a_charge a).
+Proof.
+  unfold cap_key, constraint_key, abs_atom. cbn [sa_charge sa_elem]. destruct (a_charge a) as [|p|p]; cbn; reflexivity.
+Qed.
+
+Lemma capacity_eq a v : get_bonding_capacity T (a_element a) (a_charge a) = Ok v -> capacity T (abs_atom a) = Some v.
+Proof.
+  unfold get_bonding_capacity, capacity. rewrite cap_key_eq. destruct (assoc (constraint_key _ _) T); [intro H; now inversion H|].
+  change (lit "?") with [63%N]. destruct (assoc [63%N] T); [intro H; now inversion H|discriminate].
+Qed.
+
+(* ---------- the pairs of atoms joined by a ring bond ---------- *)
+Definition pair_dec : forall a b : nat * nat, {a = b} + {a <> b}.
+Proof. decide equality; apply Nat.eq_dec. Defined.
+
+Definition ring_pairs : list (nat * nat) :=
+  nodup pair_dec (flat_map (fun x => map (fun e => key_of x (b_dst e)) (filter b_ring (row m x))) (seq 0 (natoms m))).
+
+Hypothesis Hrings : (length ring_pairs < 100)%nat.
+
+Lemma combine_map_in {A B C} (f : A -> B) (g : A -> C) l a b : In (a, b) (combine (map f l) (map g l)) -> exists x, In x l /\ a = f x /\ b = g x.
+Proof.
+  induction l as [|x l IH]; cbn; [intros []|]. intros [E|H]; [inversion E; exists x; auto|]. destruct (IH H) as (y & Hy & E1 & E2). exists y. auto.
+Qed.
+
+Lemma combine_seq_in {A C} (g : A -> C) : forall l s i b, In (i, b) (combine (seq s (length l)) (map g l)) -> exists x, nth_error l (i - s) = Some x /\ b = g x /\ (s <= i)%nat.
+Proof.
+  induction l as [|x l IH]; intros s i b; cbn; [intros []|]. intros [E|H].
+  - inversion E; subst. exists x. rewrite Nat.sub_diag. auto.
+  - destruct (IH (S s) i b H) as (y & Ey & Eb & L). exists y. replace (i - s)%nat with (S (i - S s)) by lia. auto with arith.
+Qed.
+
+Lemma pos_nth ord i x : NoDup ord -> nth_error ord i = Some x -> pos ord x = i.
+Proof.
+  intros Hn E. assert (Hin : In x ord) by (eapply nth_error_In; exact E).
+  rewrite NoDup_nth_error in Hn. apply Hn; [now apply pos_lt|]. rewrite (nth_pos ord x Hin). now symmetry.
+Qed.
+
+Lemma nodup_map_inj {A B} (f : A -> B) l : (forall a b, In a l -> In b l -> f a = f b -> a = b) -> NoDup l -> NoDup (map f l).
+Proof.
+  intros Hinj Hn. induction Hn as [|x l Hx Hn IH]; [constructor|]. cbn [map]. constructor.
+  - intro Hin. apply in_map_iff in Hin as (y & Ey & Hy). assert (y = x) by (apply Hinj; [now right|now left|exact Ey]). subst. contradiction.
+  - apply IH. intros a b Ha Hb0 E. apply Hinj; auto; now right.
+Qed.
+
+Lemma has_dup_nodup l : NoDup l -> has_dup l = false.
+Proof.
+  induction 1 as [|x l Hx Hn IH]; [reflexivity|]. cbn. rewrite IH, orb_false_r.
+  destruct (existsb (Nat.eqb x) l) eqn:E; [|reflexivity]. apply existsb_exists in E as (y & Hy & Ey). apply Nat.eqb_eq in Ey. subst. contradiction.
+Qed.
+
+(* the neighbours of an atom: its parent, then the targets of its row *)
+Definition nbrs_of (x : nat) : list nat := (match par m x with Some (p, _) => [p] | None => [] end) ++ map b_dst (row m x).
+
+Lemma nbrs_facts x : NoDup (nbrs_of x) /\ ~ In x (nbrs_of x) /\ forall y, In y (nbrs_of x) -> (y < natoms m)%nat.
+Proof.
+  unfold nbrs_of. destruct (par m x) as [[p e]|] eqn:Ep.
+  - destruct (par_some m Hb _ _ _ Ep) as (Hein & Hre & Hd & Hlt). cbn [app]. split; [|split].
+    + constructor; [|apply Hnd]. intro Hin. apply in_map_iff in Hin as (e2 & Ed2 & He2).
+      destruct (Hb x e2 He2) as (_ & _ & F). destruct (b_ring e2) eqn:Er2; [|specialize (F eq_refl); lia].
+      destruct (Hsym x e2 He2 Er2) as (e3 & He3 & Hd3 & _ & Hr3). rewrite Ed2 in He3.
+      (* two entries of the parent's row lead to x: the tree bond and a ring bond *)
+      assert (G : forall l a b, NoDup (map b_dst l) -> In a l -> In b l -> b_dst a = b_dst b -> a = b).
+      { induction l as [|z l IH]; intros a b Hn Ha Hb' E; [destruct Ha|]. cbn [map] in Hn. inversion Hn as [|? ? Hz Hn']; subst.
+        destruct Ha as [<-|Ha]; destruct Hb' as [<-|Hb']; auto.
+        - exfalso. apply Hz. rewrite E. now apply in_map.
+        - exfalso. apply Hz. rewrite <- E. now apply in_map. }
+      assert (e = e3) by (apply (G (row m p)); auto; congruence). subst e3. congruence.
+    + intros [E|Hin]; [lia|]. apply in_map_iff in Hin as (e2 & Ed2 & He2). exact (t_noself _ HT x e2 He2 Ed2).
+    + intros y [<-|Hin]; [destruct (Hb p e Hein) as (A & _); lia|]. apply in_map_iff in Hin as (e2 & <- & He2). now apply (Hb x e2).
+  - cbn [app]. split; [apply Hnd|split].
+    + intro Hin. apply in_map_iff in Hin as (e2 & Ed2 & He2). exact (t_noself _ HT x e2 He2 Ed2).
+    + intros y Hin. apply in_map_iff in Hin as (e2 & <- & He2). now apply (Hb x e2).
+Qed.
+
+Lemma frow_to ord x : map sl_to (frow m ord x) = map (pos ord) (nbrs_of x).
+Proof.
+  unfold frow, fps, nbrs_of. rewrite !map_app, !map_map. f_equal. destruct (par m x) as [[p e]|]; reflexivity.
+Qed.
+
+Lemma frow_sum ord x : bond_sum2 (frow m ord x) = 2 * valence m x.
+Proof.
+  unfold frow, valence. rewrite bond_sum2_app, (bond_sum2_slots (fun e => pos ord (b_dst e)) b_ring), isum_par. unfold fps.
+  destruct (par m x) as [[p e]|]; [unfold bond_sum2; cbn [fold_left mkslot sl_order2]|unfold bond_sum2; cbn [fold_left]]; lia.
+Qed.
+
+Lemma frow_orders ord x s : In s (frow m ord x) -> (sl_order2 s =? 3) = false.
+Proof.
+  unfold frow, fps. intro H. apply in_app_iff in H as [H|H].
+  - destruct (par m x) as [[p e]|] eqn:Ep; [|destruct H]. destruct H as [<-|[]]. destruct (par_some m Hb _ _ _ Ep) as (Hein & _).
+    destruct (Hb p e Hein) as (_ & Ho & _). cbn [mkslot sl_order2]. apply Z.eqb_neq. lia.
+  - apply in_map_iff in H as (e & <- & He). destruct (Hb x e He) as (_ & Ho & _). cbn [mkslot sl_order2]. apply Z.eqb_neq. lia.
+Qed.
+
+(* ---------- C01, the printed string ---------- *)
+Theorem printed_valid out maps : mol_to_smiles m = Ok (out, maps) -> valid_smiles_under T out = true.
+Proof.
+  intro E. unfold mol_to_smiles in E.
+  destruct (write_roots m (roots m) [] 0) as [[frags maps']|] eqn:Ew; cbn [bind] in E; [|discriminate]. inversion E; subst out maps'; clear E.
+  destruct (write_roots_wroots m _ _ _ _ _ Ew) as (evss & logf & Ewr & ->).
+  destruct (wroots_rtoks m _ _ _ _ Ewr) as (_ & ts & Ert).
+  destruct (read_graph m Hb Hnd Hsym HT Hadj ts logf Ert) as (st' & ord & Es & Q & S & O & At & Rows & Hndo & Hord & _ & Hkeys & Hndl).
+  (* fewer than 100 labels *)
+  assert (Hlog : (length logf < 100)%nat).
+  { apply Nat.le_lt_trans with (length ring_pairs); [|exact Hrings]. apply NoDup_incl_length; [exact Hndl|].
+    intros key Hk. destruct (Hkeys key Hk) as (x & e & He & Hr & ->). unfold ring_pairs. apply nodup_In. apply in_flat_map. exists x. split.
+    - apply in_seq. destruct (Nat.lt_ge_cases x (natoms m)) as [L|L]; [lia|]. unfold row in He. rewrite nth_overflow in He by lia. destruct He.
+    - apply in_map_iff. exists e. split; [reflexivity|]. apply filter_In. auto. }
+  assert (Hatoms : forall i a c at_, nth_error (atoms m) i = Some (a, c, at_) -> AtomShape a).
+  { intros i a c at_ Ei. destruct (wf_atoms _ _ _ HG i a c at_ Ei) as (_ & _ & _ & Sh). exact Sh. }
+  assert (Hbonds : forall i bonds e, nth_error (adj m) i = Some bonds -> In e bonds -> 1 <= b_order e <= 3).
+  { intros i bonds e Ei He. assert (bonds = row m i) by (unfold row; symmetry; now apply nth_error_nth). subst. now apply (Hb i e). }
+  destruct (wroots_lex m Hatoms Hbonds _ _ _ _ Ewr Hlog) as (ts' & Ert' & [_ PL]). rewrite Ert in Ert'. inversion Ert'; subst ts'; clear Ert'.
+  pose proof (PL [] [] I lexes_nil) as Lx. rewrite !app_nil_r in Lx. change (lit ".") with [46%N] in Lx.
+  unfold valid_smiles_under, read_smiles. rewrite (lexes_read _ _ Lx).
+  destruct (rtoks_chk m _ _ _ _ Ert) as [Hchk _]. unfold chk in Hchk. rewrite Hchk. cbn [negb].
+  change {| r_atoms := []; r_nbrs := []; r_prev := None; r_stack := []; r_pend := None; r_open := [] |} with init_state.
+  rewrite Es, Q, S, O, Rows, At.
+  apply andb_true_iff. split; [apply andb_true_iff; split|].
+  - (* a simple graph *)
+    unfold simple_graph. cbn [sm_nbrs]. apply forallb_forall. intros [i rowi] Hin. rewrite map_length in Hin.
+    destruct (combine_seq_in (frow m ord) ord 0%nat i rowi Hin) as (x & Ex & -> & _). rewrite Nat.sub_0_r in Ex.
+    assert (Hx : In x ord) by (eapply nth_error_In; exact Ex).
+    destruct (nbrs_facts x) as (Nn & Nx & Nlt).
+    assert (Hinj : forall a b, In a (x :: nbrs_of x) -> In b (x :: nbrs_of x) -> pos ord a = pos ord b -> a = b).
+    { intros a b Ha Hb' Eab. apply (pos_inj ord); auto; apply Hord.
+      - destruct Ha as [<-|Ha]; [now apply Hord|now apply Nlt].
+      - destruct Hb' as [<-|Hb']; [now apply Hord|now apply Nlt]. }
+    apply andb_true_iff. split; apply negb_true_iff.
+    + rewrite frow_to. apply has_dup_nodup. apply nodup_map_inj; [|exact Nn].
+      intros a b Ha Hb' Eab. apply Hinj; auto; now right.
+    + destruct (existsb (fun s => Nat.eqb (sl_to s) i) (frow m ord x)) eqn:Ex2; [|reflexivity]. exfalso.
+      apply existsb_exists in Ex2 as (s & Hs & Es2). apply Nat.eqb_eq in Es2.
+      assert (Hto : In (sl_to s) (map sl_to (frow m ord x))) by now apply in_map.
+      rewrite frow_to in Hto. apply in_map_iff in Hto as (y & Ey & Hy).
+      rewrite <- (pos_nth ord i x Hndo Ex) in Es2. rewrite <- Ey in Es2.
+      apply Nx. assert (y = x) by (apply Hinj; [now right|now left|exact Es2]). now subst.
+  - (* the valences *)
+    unfold valence_ok. cbn [sm_atoms sm_nbrs]. apply forallb_forall. intros [a rowx] Hin.
+    destruct (combine_map_in (aat m) (frow m ord) ord a rowx Hin) as (x & Hx & -> & ->).
+    assert (Hxn : (x < natoms m)%nat) by now apply Hord.
+    destruct (nth_error (atoms m) x) as [[[ax c] at_]|] eqn:Ea; [|apply nth_error_None in Ea; unfold natoms in Hxn; lia].
+    destruct (wf_atoms _ _ _ HG x ax c at_ Ea) as (Hc0 & _ & Hcap & _).
+    unfold aat. rewrite Ea. unfold CapOf, bonding_capacity, bonding_capacity_c in Hcap.
+    destruct (get_bonding_capacity T (a_element ax) (a_charge ax)) as [v|] eqn:Ev; cbn [bind] in Hcap; [|discriminate].
+    inversion Hcap as [Hcv]. rewrite (capacity_eq ax v Ev). rewrite frow_sum.
+    pose proof (wf_val _ _ _ HG x Hxn) as Hv. unfold capOf in Hv. rewrite Ea in Hv.
+    rewrite (si_val _ (wf_extra _ _ _ HG) x Hxn) in Hv.
+    apply Z.leb_le. unfold abs_atom. cbn [sa_h]. destruct (a_hcount ax); lia.
+  - (* a Kekule form *)
+    unfold kekule_form. cbn [sm_atoms sm_nbrs]. apply andb_true_iff. split.
+    + apply forallb_forall. intros a Ha. apply in_map_iff in Ha as (x & <- & _). now rewrite aat_arom.
+    + apply forallb_forall. intros rowx Hr. apply in_map_iff in Hr as (x & <- & _). apply forallb_forall. intros s Hs.
+      now rewrite (frow_orders ord x s Hs).
+Qed.
+End Valid.
+
+(* ---------- from strings ---------- *)
+Definition P2 (T : table) (a : atom) (c : Z) : Prop := CapOf T a c /\ AtomShape a.
+
+Lemma pas_p2 T t o st a cap : process_atom_symbol T t = Ok (Some (o, st, a, cap)) -> P2 T a cap.
+Proof.
+  intro E. split; [exact (pas_cap T t o st a cap E)|].
+  unfold process_atom_symbol, process_atom_symbol_c in E.
+  destruct (process_atom_nocache t) as [[[[o' st'] a']|]|] eqn:En; cbn [bind] in E; try discriminate.
+  destruct (bonding_capacity_c (get_bonding_capacity T) a') as [c|]; cbn [bind] in E; [|discriminate].
+  destruct (c <? 0); inversion E; subst. exact (nocache_shape t o st a En).
+Qed.
+
+Theorem decode_graph_ok2 T s compat attribute m : (exists c, assoc (lit "?") T = Some c) -> frags_ok s compat ->
+  decode_graph T s compat attribute = Ok m -> MolWF (P2 T) SumInv m /\ TreeInv m.
+Proof.
+  intros Hq Hd E.
+  exact (decode_graph_wf_c (P2 T) SumInv sum_empty (sum_add_atom (P2 T)) (sum_add_bond (P2 T)) (sum_upd (P2 T)) (sum_add_ring (P2 T))
+           TreeInv tree_empty (tree_root (P2 T) SumInv) (tree_step (P2 T) SumInv) (tree_upd (P2 T) SumInv) (tree_ring (P2 T) SumInv)
+           T Hq (pas_p2 T) s compat attribute m Hd E).
+Qed.
+
+(* C01: what the decoder returns is a valid SMILES string under the table in force, as judged by the independent reader,
+   whenever fewer than 100 pairs of atoms are joined by ring bonds (beyond that the writer prints the label %100: known finding) *)
+Theorem decoder_output_valid T s compat attribute out maps :
+  (exists c, assoc (lit "?") T = Some c) -> frags_ok s compat ->
+  decoder T s compat attribute = Ok (out, maps) ->
+  (forall m, decode_graph T s compat attribute = Ok m -> (length (ring_pairs m) < 100)%nat) ->
+  valid_smiles_under T out = true.
+Proof.
+  intros Hq Hd E Hr. unfold decoder, decoder_c in E. fold (decode_graph_c (get_bonding_capacity T) s compat attribute) in E.
+  change (decode_graph_c (get_bonding_capacity T) s compat attribute) with (decode_graph T s compat attribute) in E.
+  destruct (decode_graph T s compat attribute) as [m|] eqn:Eg; cbn [bind] in E; [|discriminate].
+  destruct (decode_graph_ok2 T s compat attribute m Hq Hd Eg) as [HG HT].
+  exact (printed_valid T m HG HT (Hr m eq_refl) out maps E).
+Qed.
